@@ -35,19 +35,25 @@ func SupportedVersionsRange(minVersion, maxVersion protocol.Version) []protocol.
 	return out
 }
 
-// SelectVersion picks the highest-preference version from remote that is
-// within the local [minVersion, maxVersion] range.
+// SelectVersion picks the highest version from remote that is within the
+// local [minVersion, maxVersion] range, whatever order the peer listed its
+// versions in.
 func SelectVersion(
 	remote []protocol.Version,
 	minVersion, maxVersion protocol.Version,
 ) (protocol.Version, bool) {
+	var chosen protocol.Version
+	found := false
 	for _, version := range remote {
-		if versionAtLeast(version, minVersion) && versionAtMost(version, maxVersion) {
-			return version, true
+		if !versionAtLeast(version, minVersion) || !versionAtMost(version, maxVersion) {
+			continue
+		}
+		if !found || versionAtLeast(version, chosen) {
+			chosen, found = version, true
 		}
 	}
 
-	return protocol.Version{}, false
+	return chosen, found
 }
 
 func versionAtLeast(version, minVersion protocol.Version) bool {
